@@ -81,8 +81,15 @@ pub fn run_cue(job: &Value, t: &mut Trace) -> usize {
 /// C12: totality of sniffers, metadata readers and every accessor
 pub fn run_total(job: &Value, t: &mut Trace) -> usize {
     let mut n = 0;
+    let skip_upto = job["skip_upto"].as_u64().unwrap_or(0);
     for it in job["items"].as_array().unwrap() {
+        let id = it["id"].as_u64().unwrap_or(0);
+        if id <= skip_upto {
+            continue;
+        }
         n += 1;
+        t.flush();
+        crate::alloc::CURRENT_ID.store(id, std::sync::atomic::Ordering::Relaxed);
         let kind = it["kind"].as_str().unwrap();
         let base = crate::alloc::reset_peak();
         let mut ev = json!({"ev": "total", "id": it["id"], "kind": kind, "class": it["class"], "expect_valid": it["expect_valid"].as_bool().unwrap_or(false),
